@@ -112,6 +112,49 @@ def run(check, prog):
     r9_updated_support(check, prog)
     r10_ufunc_protocol(check, prog)
     r11_shared_base_samples(check, prog)
+    r12_complex_prior(check, prog)
+
+
+def r12_complex_prior(check, prog):
+    """R12: a complex parameter with independent parts: ln p(z) = ln p_re(Re z) +
+    ln p_im(Im z), a part that is a fixed number contributing 0 (its try/except
+    falls back to 0); and prob = exp(lnprob)."""
+    cq = P + 'ComplexPrior'
+    it, res, owner, fd = method(prog, cq, 'lnprob', depth=1)
+    loc = prog.loc(owner, fd)
+    ret = res.ret
+    me, p_ = sym('self'), sym(fd.args.args[1].arg)
+    parts = {
+        'real': ([intern(('idx', ('attr', me, 'base_prior'), num(0))),
+                  intern(('attr', me, 'real'))],
+                 [intern(('call', 'numpy.real', (p_,), ())), intern(('attr', p_, 'real'))]),
+        'imag': ([intern(('idx', ('attr', me, 'base_prior'), num(1))),
+                  intern(('attr', me, 'imag'))],
+                 [intern(('call', 'numpy.imag', (p_,), ())), intern(('attr', p_, 'imag'))]),
+    }
+    ites = [x for x in subterms(ret) if x[0] == 'ite']
+    found = {}
+    for x in ites:
+        for name, (objs, comps) in parts.items():
+            if x[2][0] == 'call' and isinstance(x[2][1], tuple) and \
+                    x[2][1][0] == 'attr' and x[2][1][2] == 'lnprob' and \
+                    x[2][1][1] in objs and len(x[2][2]) == 1 and x[2][2][0] in comps \
+                    and x[3] == num(0):
+                found[name] = x
+    ok = set(found) == {'real', 'imag'} and len(ites) == 2
+    if ok:
+        c0 = Canon()
+        ok = c0.equal(ret, intern(('bin', '+', found['real'], found['imag'])))
+    check.require(ok, 'R12-complex-prior', 'ComplexPrior.lnprob',
+                  'ln p(z) = [ln p_re(Re z), or 0 for a fixed real part] + '
+                  '[ln p_im(Im z), or 0 for a fixed imaginary part]', loc,
+                  fail_detail='returns %s' % show(ret)[:200])
+    it, res, owner, fd = method(prog, cq, 'prob', depth=0)
+    p2 = sym(fd.args.args[1].arg)
+    want = intern(('call', 'numpy.exp', (('call', ('attr', me, 'lnprob'), (p2,), ()),), ()))
+    check.require(res.ret == want, 'R12-complex-prior', 'ComplexPrior.prob',
+                  'prob = exp(lnprob)', prog.loc(owner, fd),
+                  fail_detail='returns %s' % show(res.ret)[:120])
 
 
 # ----------------------------------------------------------------------
